@@ -233,6 +233,40 @@ pub fn sites(_tier: Tier) -> Vec<Site> {
                 }
             }));
     }
+    // the one text field that is written from a typed value rather than a string: the 8-byte game version of IS_VER
+    {
+        let majors: Vec<f32> = vec![0.0, 7.0, 0.7, 0.12, 0.123, 0.1234, 0.12345, 0.123456, 1.234567, 12.5, 65536.0, 1.0e10, 1.0e-7];
+        let minors: Vec<char> = vec!['F', 'z', '\u{e9}', '\u{65e5}', '\u{1f600}', '\u{10ffff}'];
+        let patches: Vec<Option<usize>> = vec![None, Some(0), Some(5), Some(12345), Some(usize::MAX)];
+        let n = (majors.len() * minors.len() * patches.len() * 2) as u64;
+        sites.push(Site::new("ver-version-field", n,
+            "IS_VER built from a typed game version: 13 numbers (1 to 11 characters when printed) x 6 letters (ASCII, 2-, 3- and 4-byte characters) x 5 revisions x mode: the frame is 20 bytes, the version field is the first 8 bytes of the printed version NUL-padded, product and InSim version sit at their offsets",
+            move |i, acc| {
+                use insim::core::game_version::GameVersion;
+                acc.eval();
+                let compressed = i % 2 == 0;
+                let mut j = (i / 2) as usize;
+                let patch = patches[j % patches.len()]; j /= patches.len();
+                let minor = minors[j % minors.len()]; j /= minors.len();
+                let major = majors[j % majors.len()];
+                let v = GameVersion { major, minor, patch };
+                let printed = v.to_string();
+                let p = insim::Packet::Ver(insim::insim::Ver { reqi: insim::identifiers::RequestId(1), version: v, product: "S3".into(), insimver: 9 });
+                let replay = json!({"site": "ver-version-field", "index": i, "version": printed});
+                let codec = insim::net::Codec::new(if compressed { insim::net::Mode::Compressed } else { insim::net::Mode::Uncompressed });
+                match crate::report::guard(|| codec.encode(&p).map(|b| b.to_vec())) {
+                    Err(pn) => acc.violate(i, "C11|VER|Version|encode-panics".into(), format!("version {printed:?}: {pn}"), replay),
+                    Ok(Err(e)) => acc.violate(i, "C11|VER|Version|encode-refused".into(), format!("version {printed:?}: {e}"), replay),
+                    Ok(Ok(f)) => {
+                        let mut want = printed.as_bytes().to_vec();
+                        want.truncate(8);
+                        want.resize(8, 0);
+                        if f.len() == 20 && f[4..12] == want[..] && &f[12..14] == b"S3" && f[18] == 9 { acc.class("ver-field-exact"); acc.nontrivial(); }
+                        else { acc.violate(i, "C11|VER|Version|fixed-width".into(), format!("version {printed:?}: frame {} ({} bytes) where the version field is 8 bytes at offset 4 and the frame 20 bytes", crate::report::hex(&f), f.len()), replay); }
+                    },
+                }
+            }));
+    }
     // text fields are filled from the text given, not from what an earlier, failed write left behind
     sites.push(super::c03::after_writer_failure_site("C11"));
     sites
